@@ -211,7 +211,7 @@ func init() {
 		Assume:      []string{"observation through the evaluator's own Eval of the constant's name and println inside scopes"},
 		QuickCap:    100 * time.Second,
 		ThoroughCap: 20 * time.Minute,
-		HangLimit:   60 * time.Second,
+		HangLimit:   240 * time.Second,
 		Run:         runC19,
 		Replay: func(c *core.Ctx, cs core.Case) *core.Viol {
 			parts := strings.Split(cs.Data, " ;; ")
